@@ -209,17 +209,19 @@ impl ContextualLookupBuilder<SubstitutionLookup> {
         id
     }
 
+    /// Add all the substitutions of one in-line rule; they must end up in one lookup,
+    /// because the contextual rule references a single lookup.
     pub(crate) fn add_anon_gsub_type_2(
         &mut self,
-        target: GlyphId16,
-        replacements: Vec<GlyphId16>,
+        rules: Vec<(GlyphId16, Vec<GlyphId16>)>,
     ) -> LookupId {
         let (lookup, id) = self.find_or_create_anon_lookup(
             |existing| match existing {
-                SubstitutionLookup::Multiple(subtables) => subtables
-                    .subtables
-                    .iter()
-                    .all(|subt| subt.can_add(target, &replacements)),
+                SubstitutionLookup::Multiple(subtables) => subtables.subtables.iter().all(|subt| {
+                    rules
+                        .iter()
+                        .all(|(target, replacements)| subt.can_add(*target, replacements))
+                }),
                 _ => false,
             },
             |flags, mark_set| SubstitutionLookup::Multiple(LookupBuilder::new(flags, mark_set)),
@@ -229,21 +231,26 @@ impl ContextualLookupBuilder<SubstitutionLookup> {
             unreachable!("per logic above we only return this variant");
         };
         let sub = subtables.last_mut().unwrap();
-        sub.insert(target, replacements);
+        for (target, replacements) in rules {
+            sub.insert(target, replacements);
+        }
         id
     }
 
+    /// Add all the component sequences of one in-line rule; they must end up in one
+    /// lookup, because the contextual rule references a single lookup.
     pub(crate) fn add_anon_gsub_type_4(
         &mut self,
-        target: Vec<GlyphId16>,
+        targets: Vec<Vec<GlyphId16>>,
         replacement: GlyphId16,
     ) -> LookupId {
         let (lookup, id) = self.find_or_create_anon_lookup(
             |existing| match existing {
-                SubstitutionLookup::Ligature(builder) => builder
-                    .subtables
-                    .iter()
-                    .all(|sub| sub.can_add(&target, replacement)),
+                SubstitutionLookup::Ligature(builder) => builder.subtables.iter().all(|sub| {
+                    targets
+                        .iter()
+                        .all(|target| sub.can_add(target, replacement))
+                }),
                 _ => false,
             },
             |flags, mark_set| SubstitutionLookup::Ligature(LookupBuilder::new(flags, mark_set)),
@@ -254,7 +261,9 @@ impl ContextualLookupBuilder<SubstitutionLookup> {
         };
 
         let sub = subtables.last_mut().unwrap();
-        sub.insert(target, replacement);
+        for target in targets {
+            sub.insert(target, replacement);
+        }
         id
     }
 }
